@@ -1,0 +1,15 @@
+//go:build verif
+
+// Contracts for saturating arithmetic (read as text by /verif's govc; comment-only).
+
+package clamp
+
+//@ # AddInt64 is used as a specification-level function; its own contract below proves
+//@ # that the body is overflow-free and equals the saturated mathematical sum.
+//@ pure func AddInt64(a int64, b int64) int64
+//@   requires true
+
+//@ lemma addInt64Saturates(a int64, b int64)
+//@   ensures a+b > 9223372036854775807 ==> AddInt64(a, b) == 9223372036854775807
+//@   ensures a+b < -9223372036854775808 ==> AddInt64(a, b) == -9223372036854775808
+//@   ensures -9223372036854775808 <= a+b && a+b <= 9223372036854775807 ==> AddInt64(a, b) == a+b
